@@ -198,7 +198,7 @@ claim('C15',
        'the recorded allocator/copy events of every call must equal the extracted script for the same oracle (0 mismatches).',
   note='Trusted: Coq kernel, extraction (ExtrOcamlBasic), gcc/clang, ld --wrap, harness/h_api.c, ocaml/d_alloc.ml, checks/alloccommon.py (incl. its reference models and murmur3). The scripts are tied to the C text by the event correspondence only. '
        'Which object struct a two-child tree removal releases (own or successor) depends on the LLRB shape (C02): both scripts are proved, the tie takes the branch from the trace. void reverse() of qvector reports failure through errno only. '
-       'Walk order of the static hash table is taken from the trace (C06). Allocation failure inside putstrf/DYNAMIC_VSPRINTF, qlisttbl save/load, debug printers: not modelled.',
+       'Walk order of the static hash table is taken from the trace (C06). putstrf of tree/hash/listtbl/hasharr and qgrow addstrf are modelled (DYNAMIC_VSPRINTF doubling loop + put/add fed from the temporary + its release) and swept with formatted lengths 10..5000 at every request position; allocation failure inside qlisttbl save/load/sort, debug printers, qstrdupf/qstrcatf: not modelled.',
   technique='Rocq proofs about allocation scripts for all oracles (count-function ledger invariant, one-step rules, linear arithmetic) + fault-injection A/B differential sweep + extracted-script event correspondence',
   design='5.15')
 claim('C11',
